@@ -203,7 +203,9 @@ fn ill_typed_stmt(d: &mut Dec, p: &GProg) -> (&'static str, String) {
     let fns: Vec<&FnDef> = p
         .fns
         .iter()
+        // (not one that a local of the same spelling may shadow where the statement lands)
         .filter(|f| f.tparams == 0 && !f.params.is_empty() && f.name != "main" && f.params.iter().all(|(_, t)| lit_of(t).is_some()))
+        .filter(|f| !p.vars.iter().any(|v| v.spelling == f.name))
         .collect();
     let structs: Vec<(&AdtDef, &Vec<(String, Ty)>)> = p
         .adts
